@@ -297,6 +297,7 @@ def parse_row(row: bytes, intern, skin=None):
         "_text": text,
         "_emph": emph,
         "_kinds": kinds,
+        "_spans": [x[0] for x in sp],
     }
 
 
